@@ -12,7 +12,7 @@
 //! (3) the whole parser on every byte string up to a stated length (bounded stand-in, never counted as proved).
 //!
 //! Built without `alloc`: `Abbreviation` is the fixed-capacity ArrayStr<30> and `Error::from_args` keeps only a static
-//! message, so no error-formatting stub is needed (measured: the formatter is not even reached).
+//! message, so no error-formatting stub is needed.
 use super::*;
 use core::cell::Cell;
 
@@ -507,61 +507,29 @@ fn whole(tz: &[u8]) {
     }
 }
 
-//@harness c17_posix_parse_upto_12
+//@harness c17_posix_parse_upto_24
 //@target shared::posix::Parser::parse with ianav3plus (= PosixTimeZone::parse, TimeZone::posix, the TZif footer) (src/shared/posix.rs)
 //@prop C17
 //@tier quick
 //@timeout 1500
-//@bounded every byte string of 1..=12 bytes (the empty string is c17_posix_parse_empty); only `core::str::from_utf8` is replaced (by a version that asserts the bytes are ASCII)
-//@doc no stubs for parser code: the whole POSIX TZ parser returns Ok or Err without panicking; Ok(tz) => PosixTimeZone::wf (standard offset inside -89999..=89999, DST offset inside -93599..=93599, rule day specs and times in range), both abbreviations have 3..=30 bytes.  Ok is reachable inside the bound both without DST ("AAA0", 4 bytes) and with a DST rule ("AAA0BBB,0,0", 11 bytes)
+//@bounded every byte string of 1..=24 bytes (the empty string is c17_posix_parse_empty); only `core::str::from_utf8` is replaced (by a version that asserts the bytes are ASCII)
+//@doc no stubs for parser code: the whole POSIX TZ parser returns Ok or Err without panicking; Ok(tz) => PosixTimeZone::wf (standard offset inside -89999..=89999, DST offset inside -93599..=93599, rule day specs and times in range), both abbreviations have 3..=30 bytes.  Ok is reachable inside the bound both without DST ("AAA0", 4 bytes) and with a DST rule ("AAA0BBB,0,0", 11 bytes; "AAA0BBB,M3.2.0,M11.1.0" has 23)
 #[kani::proof]
 #[kani::stub(core::str::from_utf8, stub_from_utf8)]
-#[kani::unwind(14)]
-fn c17_posix_parse_upto_12() {
-    let bytes: [u8; 12] = kani::any();
-    let len: usize = kani::any(); kani::assume(1 <= len && len <= 12);
-    whole(&bytes[..len]);
-}
-
-//@harness c17_posix_parse_upto_32
-//@target x
-//@prop C17
-//@tier thorough
-//@timeout 1500
-//@bounded 32
-//@doc experiment
-#[kani::proof]
-#[kani::stub(core::str::from_utf8, stub_from_utf8)]
-#[kani::unwind(33)]
-fn c17_posix_parse_upto_32() {
-    let bytes: [u8; 32] = kani::any();
-    let len: usize = kani::any(); kani::assume(1 <= len && len <= 32);
-    whole(&bytes[..len]);
-}
-
-//@harness c17_posix_parse_upto_48
-//@target x
-//@prop C17
-//@tier thorough
-//@timeout 1500
-//@bounded 48
-//@doc experiment
-#[kani::proof]
-#[kani::stub(core::str::from_utf8, stub_from_utf8)]
-#[kani::unwind(33)]
-fn c17_posix_parse_upto_48() {
-    let bytes: [u8; 48] = kani::any();
-    let len: usize = kani::any(); kani::assume(1 <= len && len <= 48);
+#[kani::unwind(26)]
+fn c17_posix_parse_upto_24() {
+    let bytes: [u8; 24] = kani::any();
+    let len: usize = kani::any(); kani::assume(1 <= len && len <= 24);
     whole(&bytes[..len]);
 }
 
 //@harness c17_posix_parse_upto_60
-//@target x
+//@target shared::posix::Parser::parse with ianav3plus (= PosixTimeZone::parse, TimeZone::posix, the TZif footer) (src/shared/posix.rs)
 //@prop C17
 //@tier thorough
-//@timeout 1500
-//@bounded 60
-//@doc experiment
+//@timeout 2400
+//@bounded every byte string of 1..=60 bytes (from 62 bytes on the parser panics, see c17_posix_abbreviation_anywhere); only `core::str::from_utf8` is replaced (by a version that asserts the bytes are ASCII)
+//@doc as c17_posix_parse_upto_24, for every byte string of up to 60 bytes
 #[kani::proof]
 #[kani::stub(core::str::from_utf8, stub_from_utf8)]
 #[kani::unwind(33)]
